@@ -100,6 +100,7 @@ class Scenario:
             @hookimpl
             async def on_end_run(self, context: Any, event: Any) -> None:
                 self._r('on_end_run', context)
+                sc.end_run_seen = True
 
             @hookimpl
             async def on_finished(self, context: Any) -> None:
@@ -110,6 +111,23 @@ class Scenario:
                 self._r('on_start_prompt', context)
 
         nl.register(Recorder())
+
+        class Raiser:
+            # a faulty third-party plugin: its on_end_run raises when armed (operation `exitx`)
+            @hookimpl
+            async def on_end_run(self, context: Any, event: Any) -> None:
+                if sc.raise_in_end_run:
+                    sc.raise_in_end_run = False
+                    # the other implementations of this hook call run concurrently (asyncio.gather does not cancel them when one
+                    # raises): let the recorder's run first, so that what it records does not depend on the failure
+                    for _ in range(200):
+                        if sc.end_run_seen:
+                            break
+                        await asyncio.sleep(0)
+                    raise RuntimeError('plugin failure in on_end_run (injected by the harness)')
+        self.raise_in_end_run = False
+        self.end_run_seen = False
+        nl.register(Raiser())
         # the broker exists from construction on; wrap it now if it can be reached, else at the `init` hook
         imp = getattr(nl, '_imp', None)
         if imp is not None and hasattr(imp, 'pubsub'):
@@ -296,6 +314,19 @@ class Scenario:
             else:
                 await settle()
                 self._collect()
+        elif w[0] == 'exitx':
+            # the child exits and a plugin's on_end_run raises: the run must still be finished and its arguments withdrawn
+            live = self.world.live()
+            if live:
+                self.raise_in_end_run = True
+                self.end_run_seen = False
+                c = live[-1]
+                if w[1] == '-':
+                    c.exit(None, exitcode=-9)
+                else:
+                    c.exit(RunResult(ret=int(w[1])), exitcode=0)
+            await settle()
+            self._collect()
         elif w[0] == 'exit':
             live = self.world.live()
             if live:
